@@ -69,23 +69,10 @@ def evalP {N : Type} (nm : Num N) (c : Ctx) : P N → Option (Val N)
   | .text => some (.str c.text)
   | .last => some (.num (nm.ofNat c.last))
   | .position => some (.num (nm.ofNat c.pos))
-  | .concat args =>
-    match evalArgs nm c args with
-    | some vs => (joinStrs vs).map .str
-    | none => none
-  | .contains a b =>
-    match evalP nm c a, evalP nm c b with
-    | some x, some y =>
-      match valToStr nm x, valToStr nm y with
-      | some s1, some s2 => some (.bool (isInfix s2 s1))
-      | _, _ => none
-    | _, _ => none
+  | .concat args => concatVal (evalArgs nm c args)
+  | .contains a b => containsVal nm (evalP nm c a) (evalP nm c b)
   | .nspace0 => some (.str (strip c.text))
-  | .nspace1 a =>
-    match evalP nm c a with
-    | some (.str s) => some (.str (strip s))
-    | some .null => some (.str [])
-    | _ => none
+  | .nspace1 a => nspaceVal (evalP nm c a)
   | .group p => evalP nm c p
   | .bin o l r =>
     match evalP nm c l, evalP nm c r with
